@@ -298,6 +298,8 @@ structure Peer where
   pend : Option Want
   /-- `rib.Has(publisher)`: the peer's RIB currently has a finite path to the publisher -/
   reach : Bool := false
+  /-- the publisher's number in the peer's prefix-sync state vector (std/sync SvSync.state) -/
+  svs : UInt64 := 0
 deriving Repr
 
 def Peer.init : Peer := { known := 0, latest := 0, fetching := false, set := [], pend := none, reach := false }
@@ -318,6 +320,11 @@ def Peer.losePath (q : Peer) : Peer := { q with reach := false }
 
 /-- `onPfxSyncUpdate`: the new number is recorded even while there is no path -/
 def Peer.sync (q : Peer) (high : UInt64) : Peer := Peer.fetch { q with latest := high }
+
+/-- a Sync Interest of the prefix-sync group carrying the publisher's number reaches the peer's SvSync
+    (`onReceiveStateVector`): only a strictly larger number is reported to `onPfxSyncUpdate` -/
+def Peer.svsReceive (q : Peer) (high : UInt64) : Peer :=
+  if high > q.svs then Peer.sync { q with svs := high } high else q
 
 def applyOp (s : List Nat) : LogOp → List Nat
   | .add n => if s.contains n then s else s ++ [n]
